@@ -154,7 +154,13 @@ Definition reached (d : dump) (es : edges) : list item := items_of es ++ d_root 
 
 (* a synthetic description: the untransformed run (dump, edges, registry) and the registries of the
    transformed runs *)
-Definition verdict_synth (d : dump) (es : edges) (flags : list (bool * bool)) (base : registry) (crates : list string)
+(* every container of [small] whose name is a key of [big] is that key's container *)
+Definition agrees_where_defined (small big : registry) : bool :=
+  forallb (fun kc => match lookup (fst kc) big with Some c => container_eqb c (snd kc) | None => true end) small.
+
+(* [serde]: what serde's derive describes for the types of the synthetic description whose shape is
+   unambiguous (computed by the harness from the generator's spec, independently of crux_cli) *)
+Definition verdict_synth (d : dump) (es : edges) (flags : list (bool * bool)) (base serde : registry) (crates : list string)
                          (obs : list (option registry)) : N :=
   let amb := negb (unambiguousb (containers es)) in
   let all_same := forallb (fun o => match o with Some r => registry_eqb r base | None => false end) obs in
@@ -163,6 +169,7 @@ Definition verdict_synth (d : dump) (es : edges) (flags : list (bool * bool)) (b
   let explained := fun s => known_childless cands es s || known_nested_range es s || known_renamed cands s in
   let no_effect := known_request_without_effect base in
   (if negb (contiguousb base) then 2
+   else if negb (agrees_where_defined serde base) then 2
    else if negb all_same && negb amb then 2
    else if negb (forallb explained dang) then 2
    else if negb (closedb base) && is_nil dang && negb no_effect then 2
